@@ -38,10 +38,79 @@ def load_mutants(prop=None):
                 x = dict(x)
                 x.setdefault('prop', pid)
                 out.append(x)
+    # the stored changes of independent sub-agents: breaking ones (seeded/<PROP>_<k>) must be reported by their property's check, behaviour-preserving ones
+    # (neutral/<PROP>_n<k>) must leave EVERY check silent - here: the check of the slice
+    for kind, expect in (('seeded', 'fire'), ('neutral', 'silent')):
+        d2 = os.path.join(VERIF, kind)
+        if not os.path.isdir(d2):
+            continue
+        for name in sorted(os.listdir(d2)):
+            pf = os.path.join(d2, name, 'patch.diff')
+            if not os.path.isfile(pf):
+                continue
+            own = name.split('_')[0]
+            if kind == 'seeded':
+                if prop and own != prop:
+                    continue
+                out.append(dict(prop=own, name=f'seed-{name}', patch=pf, expect='fire', rule=None))
+            else:
+                for pid in ([prop] if prop else [own]):
+                    out.append(dict(prop=pid, name=f'neutral-{name}', patch=pf, expect='silent'))
+    return out
+
+
+class StalePatch(Exception):
+    pass
+
+
+def apply_unified_diff(repo, difftext):
+    """{file: new text} for a unified diff against the files of `repo`, applied in memory (hunks located by their context, so line drift is tolerated;
+    a hunk whose context is not found exactly once near its stated position raises StalePatch)"""
+    out = {}
+    cur = None
+    hunks = []
+    files = []
+    for line in difftext.splitlines():
+        if line.startswith('+++ '):
+            path = line[4:].strip()
+            path = path[2:] if path.startswith('b/') else path
+            cur = (path, [])
+            files.append(cur)
+        elif line.startswith('@@') and cur is not None:
+            import re
+            m_ = re.match(r'@@ -(\d+)', line)
+            cur[1].append([int(m_.group(1)), []])
+        elif cur is not None and cur[1] and (line[:1] in ' +-' or line == '') and not line.startswith('--- '):
+            cur[1][-1][1].append(line if line else ' ')
+    for path, hs in files:
+        if path == '/dev/null':
+            continue
+        fp = os.path.join(repo, path)
+        lines = open(fp, encoding='utf-8').read().split('\n') if os.path.isfile(fp) else []
+        offset = 0
+        for start, body in hs:
+            old = [l[1:] for l in body if l[:1] in ' -']
+            new = [l[1:] for l in body if l[:1] in ' +']
+            cands = [i for i in range(len(lines) - len(old) + 1) if lines[i:i + len(old)] == old] if old else [max(start - 1 + offset, 0)]
+            if not cands:
+                raise StalePatch(f'{path}: hunk at line {start} does not match the current source')
+            i = min(cands, key=lambda c: abs(c - (start - 1 + offset)))
+            lines[i:i + len(old)] = new
+            offset += len(new) - len(old)
+        txt = '\n'.join(lines)
+        if path.endswith('.py'):
+            import warnings
+            with warnings.catch_warnings():
+                warnings.simplefilter('ignore')
+                compile(txt, path, 'exec')
+        out[path] = txt
     return out
 
 
 def build_overlay(m, repo):
+    if m.get('patch'):
+        with open(m['patch'], encoding='utf-8') as f:
+            return apply_unified_diff(repo, f.read())
     edits = m.get('edits') or [(m['file'], m['old'], m['new'])]
     overlay = {}
     for e in edits:
@@ -70,7 +139,10 @@ def run_mutant(args):
     from sa import core
     t0 = time.time()
     try:
-        overlay = build_overlay(m, repo)
+        try:
+            overlay = build_overlay(m, repo)
+        except StalePatch as e:
+            return (m, True, f'SKIPPED (stale patch: {e})', time.time() - t0)
         mod = importlib.import_module(f"sa.rules.{m['prop']}")
         rc, ctx, out = core.run_property(m['prop'], mod, repo=repo, tier='quick', overlay=overlay,
                                          write_evidence=False, quiet=True)
@@ -83,7 +155,7 @@ def run_mutant(args):
         ok = rc == 0
         msg = 'silent' if ok else f'rc={rc}: ' + '; '.join(f.key for f in new[:3]) + ' | ' + ' '.join(out[:2])
     else:
-        hits = [f for f in new if f.rule == m['rule'] and (not m.get('construct') or m['construct'] in f.construct)]
+        hits = [f for f in new if (m.get('rule') is None or f.rule == m['rule']) and (not m.get('construct') or m['construct'] in f.construct)]
         if m.get('rc') is not None:
             ok = rc == m['rc']
             msg = f'rc={rc}'
@@ -108,7 +180,7 @@ def run_slice(prop=None, jobs=16, repo='/repo', verbose=True):
         tag = 'ok  ' if ok else 'FAIL'
         if not ok:
             bad += 1
-        if verbose and (not ok or os.environ.get('SELFTEST_VERBOSE')):
+        if verbose and (not ok or os.environ.get('SELFTEST_VERBOSE') or msg.startswith('SKIPPED')):
             print(f"  selftest {tag} {m['prop']}/{m['name']} [{m['expect']}] {msg} ({dt:.1f}s)")
     nf = sum(1 for m in ms if m['expect'] == 'fire')
     if verbose:
